@@ -38,13 +38,13 @@ Vocab ==
 
 Input == ndJsonDeserialize("cssgen_in.ndjson")
 
-VARIABLES i, out
-Init == i \in 1..Len(Input) /\ out = FALSE
-Next == /\ ~out /\ out' = TRUE /\ i' = i
-        /\ PrintT(<<"CASE", ToJson(CaseOf(Input[i].id, Input[i].items))>>)
-Spec == Init /\ [][Next]_<<i, out>>
+VARIABLES gen_i, gen_out
+Init == gen_i \in 1..Len(Input) /\ gen_out = FALSE
+Next == /\ ~gen_out /\ gen_out' = TRUE /\ gen_i' = gen_i
+        /\ PrintT(<<"CASE", ToJson(CaseOf(Input[gen_i].id, Input[gen_i].items))>>)
+Spec == Init /\ [][Next]_<<gen_i, gen_out>>
 
-VocabInit == i = 0 /\ out = FALSE
-VocabNext == ~out /\ out' = TRUE /\ i' = i /\ PrintT(<<"CASE", ToJson(Vocab)>>)
-VocabSpec == VocabInit /\ [][VocabNext]_<<i, out>>
+VocabInit == gen_i = 0 /\ gen_out = FALSE
+VocabNext == ~gen_out /\ gen_out' = TRUE /\ gen_i' = gen_i /\ PrintT(<<"CASE", ToJson(Vocab)>>)
+VocabSpec == VocabInit /\ [][VocabNext]_<<gen_i, gen_out>>
 =============================================================================
